@@ -126,6 +126,14 @@ def modelled : List String :=
   ["WELSPECS", "COMPDAT", "COMPLUMP", "WPIMULT", "WCONPROD", "WCONINJE", "WCONHIST", "WCONINJH", "WHISTCTL", "WELOPEN",
    "WELTARG", "WEFAC", "WECON", "WTEST", "WLIST", "GRUPTREE", "GEFAC", "GCONPROD", "GCONINJE", "NEXTSTEP", "UDQ"]
 
+def parseOrder (s : String) : Option Nat :=
+  if s = "TRACK" then some 0 else if s = "DEPTH" then some 1 else if s = "INPUT" then some 2 else none
+
+def parseCompord (r : String) : Option (String × Nat) :=
+  match r.splitOn "," with
+  | [p, o] => (parseOrder o).map fun x => (p, x)
+  | _ => none
+
 def parseKw (s : String) : Option (Kw CKw) :=
   match s.splitOn "=" with
   | [name, body] =>
@@ -135,6 +143,7 @@ def parseKw (s : String) : Option (Kw CKw) :=
     else if name = "SCHEDULE" then some .schedule
     else if name = "ACTIONX" then some (.other (.actionx body))
     else if name = "ENDACTIO" then some (.other .endactio)
+    else if name = "COMPORD" then (allSome (recs.map parseCompord)).map fun rs => .other (.compord rs)
     else if modelled.contains name then
       (allSome (recs.map fun r => parseROp name (r.splitOn ","))).map fun rs => .other (.ops name rs)
     else some (.other (.ops name []))
@@ -207,9 +216,18 @@ def statusCode : Status → Nat
 
 def connKey (c : Conn) : Nat := (c.i * 100000 + c.j) * 100000 + c.k
 
-def showConns (cs : List Conn) : String :=
-  "/".intercalate ((cs.mergeSort fun a b => connKey a ≤ connKey b).map fun c =>
+/-- The connections in the well's own sequence (`WellConnections::begin() .. end()`) when
+`seq`, else sorted by cell. -/
+def showConns (seq : Bool) (cs : List Conn) : String :=
+  "/".intercalate ((if seq then cs else cs.mergeSort fun a b => connKey a ≤ connKey b).map fun c =>
     s!"{c.i}.{c.j}.{c.k}.{c.state}.{c.complnum}.{evalVal c.pimult}")
+
+/-- The sequence is part of the record unless the well's head was moved (the head the
+`WellConnections` object orders by is then history dependent) or a DEPTH-ordered well has more
+than 16 connections (`std::sort` is then not the stable insertion the model uses). -/
+def seqObserved (w : WellP) (cs : List Conn) : Bool := !w.moved && !(w.order == 1 && cs.length > 16)
+
+def orderName (o : Nat) : String := if o = 0 then "TRACK" else if o = 1 then "DEPTH" else "INPUT"
 
 def b01 (b : Bool) : String := if b then "1" else "0"
 
@@ -220,11 +238,11 @@ def showWellCore (status : Nat) (conns : String) (nw : String × WellP) : String
   let ps := s!"P({p.cmode},{p.ctrl},{b01 p.pred},{evalVal p.orat},{evalVal p.wrat},{evalVal p.grat},{evalVal p.lrat},{evalVal p.resv},{evalVal p.bhp},{evalVal p.bhpLim},{b01 p.bhpLimDef},{evalVal p.bhph},{p.whist})"
   let is := s!"I({i.itype},{i.cmode},{i.ctrl},{b01 i.pred},{evalVal i.rate},{evalVal i.resv},{evalVal i.bhp},{evalVal i.bhpLim},{evalVal i.bhph})"
   let es := s!"E({evalVal w.econ.1},{evalVal w.econ.2.1},{w.econ.2.2})"
-  s!"W:{n},{w.group},{status},{if w.producer then "P" else "I"},{b01 w.wpred},{w.headI}.{w.headJ},{ps},{is},{evalVal w.efac},{es},{conns}"
+  s!"W:{n},{w.group},{status},{if w.producer then "P" else "I"},{b01 w.wpred},{w.headI}.{w.headJ},{ps},{is},{evalVal w.efac},{es},{orderName w.order},{conns}"
 
 /-- A well's line: its properties, its status (`statusOf`) and its connections. -/
 def showWell (s : State) (nw : String × WellP) : String :=
-  showWellCore (statusCode (statusOf s.st nw.1)) (showConns (connsOf s.c.m nw.1)) nw
+  showWellCore (statusCode (statusOf s.st nw.1)) (showConns (seqObserved nw.2 (connsOf s.c.m nw.1)) (connsOf s.c.m nw.1)) nw
 
 def showGInj (g : GroupP) : String :=
   "/".intercalate (["WATER", "GAS", "OIL"].filterMap fun ph =>
@@ -239,6 +257,7 @@ def kwName : CKw → String
   | .ops n _ => n
   | .actionx _ => "ACTIONX"
   | .endactio => "ENDACTIO"
+  | .compord _ => "COMPORD"
 
 def sortByKey {α} (m : List (String × α)) : List (String × α) := m.mergeSort fun a b => a.1 ≤ b.1
 
